@@ -46,6 +46,8 @@ Typical use (see harness/props/c04.py, c11.py)
             reason, steps = env.drain()                            # then look at env.audit(), env.qledger(), LEDGER, env.state_line()
     # depth 2: e.deliver_op("A", a, {k: e.deliver_op("B", b, {j: e.deliver_op("C", c)})}); any callable: e.fn_op("B", "sweep", fn)
     # an index >= the number of calls means "right after the operation" (sequential baseline)
+    # several injections into ONE worker: e.deliver_op("A", a, {k1: opG, k2: opB}) — A resumes between them (harness/props/c11.py, family
+    # bump-retry); Op.rollbacks lists the call indices at which a write transaction of the worker was rolled back (parallel to Op.txns)
 
 Pieces
 ------
@@ -138,10 +140,13 @@ class Op:
     skipped_intxn: list[int] = field(default_factory=list)
     injected: list[int] = field(default_factory=list)
     txns: list[tuple[str, list[str]]] = field(default_factory=list)   # ("commit"|"rollback", [DML tags]) per write transaction
+    rollbacks: list[int] = field(default_factory=list)   # len(calls) when a write transaction was rolled back: the rollback happened
+    #                                                      after call rollbacks[i]-1 and before call rollbacks[i] (parallel to the "rollback" entries of txns)
 
     def reset(self) -> None:
         self.calls, self.result, self.error = [], None, None
         self.skipped_intxn, self.injected, self.txns = [], [], []
+        self.rollbacks = []
         for o in self.arm.values():
             o.reset()
 
@@ -200,6 +205,7 @@ class Sched:
         cur = getattr(self.tl, "dml", None)
         if cur is not None:
             op.txns.append(("rollback", cur))
+            op.rollbacks.append(len(op.calls))
             self.tl.dml = None
 
     def run_op(self, op: Op) -> None:
